@@ -84,6 +84,14 @@ ROUND6 = {
     "C17": " Also: a cyclic Lock reconciled three times by the same resolver instance.",
 }
 
+# Added by the seventh round.
+ROUND7 = {
+    "C02": " Also: a foreign controller creates the absent target (controller reference to a foreign UID) just before the k-th API call addressing it, k=1..6, at 14 write sites.",
+    "C07": " Also: after claim->XR sync has gone quiet, the XR side writes each of the 32 subsets of {external name, compositionRef, compositionRevisionRef, resourceRefs, status} under 7 selection/policy combinations, both syncers; the two following re-syncs are judged by the same partition.",
+    "C11": " Also: the definition reconciler built with the applicator Setup uses, with another XRD taking control of the derived CRD just before the k-th API call of the reconcile.",
+    "C18": " Also: the package manager rewrites status.permissionRequests (append / replace by uncovered, remove, append covered) just before the k-th API call of a roles reconcile, k=1..10, then reconciles to quiescence.",
+}
+
 CLAIMED.update({
     "C10": {
         "text": "Exhaustive products over a 42-value JSON alphabet (every JSON type, int64/float boundaries, nested), 108 transform configurations (every transform type and parameter corner incl. negative/out-of-range regexp groups, malformed formats), chains of two, 7 patch types x 13 from-paths x 16 to-paths x 13 policies/merge options, combine patches, render/metadata cases: Resolve/Apply never panic, are deterministic and pure (source deep-equal before/after), optional-missing is a no-op and required-missing an error, results agree with an independent reference of each transform's documented meaning and the convert round-trip laws; reconciler-level scenarios show a composed resource whose from-XR patch, metadata or name generation failed is not written while its sibling is, and that the merge options of one template's patches do not change what is applied for the next template.",
@@ -204,7 +212,7 @@ def main():
                 "evidence_file": f"evidence/{cid}.json",
                 "replay_cmd_template": "./vcheck replay {path}",
                 "engine": "explore",
-                "level_claimed": {"category": LEVEL[cid], "text": c["text"] + ROUND4.get(cid, "") + ROUND5.get(cid, "") + ROUND6.get(cid, ""), "design_ref": f"DESIGN.md section 3 {cid}"},
+                "level_claimed": {"category": LEVEL[cid], "text": c["text"] + ROUND4.get(cid, "") + ROUND5.get(cid, "") + ROUND6.get(cid, "") + ROUND7.get(cid, ""), "design_ref": f"DESIGN.md section 3 {cid}"},
                 "level_note": c.get("note", COMMON_NOTE),
                 "technique": c["technique"],
             })
